@@ -772,3 +772,42 @@ def without_exports(ops):
         if o[0] not in ("ExportJson", "ExportProvn", "ToGraph", "ObserveAll"):
             out.append(o)
     return out
+
+
+def equal_values_programs(export=("ExportJson", "ExportProvn")):
+    """fixed programs about what an earlier export may leave behind: (1) values that compare equal in Python but are
+    different values (True / 1 / 1.0, False / 0 / 0.0, the same instant in two zones, a URI and the qualified name of that
+    URI), each in a document of its own, exported one after the other in one process, in two orders; (2) a record exported,
+    then changed in place by set_time / add_attributes / add_asserted_type (none of which adds a record), then exported
+    again"""
+    EXU = "http://example.org/"
+    vals = [["bool", "true"], ["int", "1"], ["float", "1.0", "1", "1"], ["bool", "false"], ["int", "0"], ["float", "0.0", "0", "0"],
+            ["time", "2012", "3", "31", "9", "21", "0", "0", "0"], ["time", "2012", "3", "31", "11", "21", "0", "0", "120"],
+            ["id", EXU + "a"], ["qn", "ex", EXU, "a"], ["str", "1"], ["str", "true"]]
+    out = []
+    for order in (list(range(len(vals))), list(reversed(range(len(vals))))):
+        p = []
+        for i, j in enumerate(order):
+            p += [["NewDoc"], ["AddNs", ["d", str(i)], "ex", EXU],
+                  ["NewRecord", ["d", str(i)], "Entity", ["S", "ex:e"], [[["S", "ex:k"], vals[j]], [["S", "prov:value"], vals[j]]]]]
+            for e in export:
+                p.append([e, str(i)])
+        out.append(p)
+    t1 = ["time", "2012", "3", "31", "9", "21", "0", "0", "none"]
+    t2 = ["time", "2013", "4", "1", "10", "22", "0", "0", "none"]
+    for in_bundle in (False, True):
+        c = ["b", "0", "0"] if in_bundle else ["d", "0"]
+        p = [["NewDoc"], ["AddNs", ["d", "0"], "ex", EXU]]
+        if in_bundle:
+            p.append(["NewBundle", "0", ["S", "ex:b"]])
+        p += [["NewRecord", c, "Activity", ["S", "ex:a"], []], ["NewRecord", c, "Activity", ["S", "ex:a2"], [[["Q", "prov", PROV, "startTime"], t1]]],
+              ["NewRecord", c, "Entity", ["S", "ex:e"], [[["S", "ex:k"], ["int", "1"]]]]]
+        for change in ([["SetTime", ["r", c, "0"], t1, "none"]], [["SetTime", ["r", c, "0"], "none", t2]], [["SetTime", ["r", c, "1"], t2, t2]],
+                       [["AddAttrs", ["r", c, "2"], [[["S", "ex:k"], ["int", "2"]]]]], [["AddType", ["r", c, "2"], ["qn", "ex", EXU, "T"]]]):
+            for e in export:
+                p.append([e, "0"])
+            p += change
+        for e in export:
+            p.append([e, "0"])
+        out.append(p)
+    return out
